@@ -1,6 +1,6 @@
 use super::TypeInference;
 use crate::constraint::{Constraint, ConstraintReason, TypeError, TypeErrorKind};
-use crate::typed_ast::{TypedExprKind, TypedStmtKind};
+use crate::typed_ast::TypedStmtKind;
 use crate::types::InferType;
 use aelys_syntax::{Expr, Span, TypeAnnotation};
 
@@ -21,12 +21,13 @@ impl TypeInference {
             .map(|ann| self.type_from_annotation(ann));
 
         let var_type = if let Some(decl) = &declared_type {
-            if let TypedExprKind::Int(value) = &typed_init.kind
+            if let Some(value) = typed_init.int_literal_value()
                 && decl.is_integer()
                 && *decl != InferType::I64
             {
+                let value = &value;
                 if InferType::int_fits(*value, decl) {
-                    typed_init.ty = decl.clone();
+                    typed_init.retype_int_literal(decl);
                 } else {
                     self.errors.push(TypeError {
                         kind: TypeErrorKind::Mismatch {
